@@ -281,3 +281,19 @@ def factor_of_expression_text(text):
             x = factor_of_expression(tok)
             f = f * x if sign == 1 else f / x
     return f
+
+
+def atoms_of_expression_text(text):
+    """{(prefix,sym): exponent} (zero exponents dropped) of a parenthesis-free expression 'kg*m/s2'."""
+    import re
+    out = {}
+    sign = 1
+    for tok in re.split(r"([*/])", text):
+        if tok == "*":
+            sign = 1
+        elif tok == "/":
+            sign = -1
+        else:
+            for k, e in parse_simple_expression(tok).items():
+                out[k] = out.get(k, F(0)) + sign * e
+    return {k: e for k, e in out.items() if e != 0}
